@@ -309,7 +309,7 @@ class URL:
                 netloc = self.netloc
                 _, _, hostname = netloc.rpartition("@")
 
-                if hostname[-1] != "]":
+                if hostname[-1:] != "]":  # (also for an empty host)
                     hostname = hostname.rsplit(":", 1)[0]
 
             netloc = hostname
